@@ -13,7 +13,7 @@ fn main() {
     let d = std::cmp::min(Report::depth().saturating_sub(2), 3); // quick (4) -> 2, thorough (5) -> 3
     let prim = |s: &str| TypeStructure::Primitive(s.to_string());
     let cus = |s: &str| TypeStructure::Custom(s.to_string());
-    let leaves = vec![prim("string"), prim("number"), prim("boolean"), cus("User"), cus("PathBuf"), cus("DateTime<chrono::Utc>")];
+    let leaves = vec![prim("string"), prim("number"), prim("boolean"), cus("User"), cus("PathBuf"), cus("DateTime<chrono::Utc>"), cus("Page<UserItem>")];
     let tables: Vec<(&str, Vec<(&str, &str)>)> = vec![
         ("none", vec![]),
         ("PathBuf->string", vec![("PathBuf", "string")]),
@@ -60,7 +60,7 @@ fn main() {
                                 while i < cs.len() && (cs[i].is_alphanumeric() || cs[i] == '_') { i += 1; }
                                 let id: String = cs[st..i].iter().collect();
                                 let qualified = st >= 6 && cs[st - 6..st].iter().collect::<String>() == "types.";
-                                let project = id == "User" || id == "PathBuf" || id == "DateTime";
+                                let project = id == "User" || id == "PathBuf" || id == "DateTime" || id == "Page";
                                 if qualified && !project { return Err(format!("add_types_prefix(`{}`) = `{}`: `types.{}` names nothing types.ts exports", real, got, id)); }
                                 if !qualified && project { return Err(format!("add_types_prefix(`{}`) = `{}`: project type `{}` is not qualified", real, got, id)); }
                                 continue;
